@@ -16,6 +16,12 @@ RICH = [
     {"nodes": [{"k": "wfc", "polls": 4, "init": {"pool": 5}, "states": [{"pool": 5}, {"pool": 6}, {"pool": 4}, {"pool": 2}]}, {"k": "step"}]},
     {"nodes": [{"k": "child", "body": [{"k": "wfc", "polls": 3, "states": [{"pool": 6}, {"pool": 5}, {"pool": 5}]}]}, {"k": "wait"}]},
 ]
+# check functions that update the state object they were given IN PLACE (and return it); the same programs run many times in one
+# process (a warm sandbox): what a poll receives is what the previous poll of THIS execution returned
+INPLACE = [
+    {"nodes": [{"k": "wfc", "polls": 4, "mutate_state": True}, {"k": "step"}]},
+    {"nodes": [{"k": "wfc", "polls": 3, "mutate_state": True, "init": {"n": 0, "h": []}}, {"k": "wait"}, {"k": "wfc", "polls": 3, "mutate_state": True}]},
+]
 # check functions that take time: the (asynchronous) START is sent, or still in flight, while the poll runs
 # wait strategies that build the decision themselves (not through the factory) and ask for a zero / sub-second delay
 RAW = [
@@ -32,7 +38,7 @@ SLOW = [
 
 def run(ctx):
     run_durable(ctx, model=["s03_child_wfc", "s12_wfc_three_polls", "s17_child_wfc_inside", "s05_wfcb_childfail_wfcfail"],
-                programs=["s03_child_wfc", "s12_wfc_three_polls", "s17_child_wfc_inside", "s05_wfcb_childfail_wfcfail"] + FALSY + SLOW + RAW + RICH,
+                programs=["s03_child_wfc", "s12_wfc_three_polls", "s17_child_wfc_inside", "s05_wfcb_childfail_wfcfail"] + FALSY + SLOW + RAW + RICH + INPLACE,
                 oracle_fns=[oracles.c13, oracles.c03],
                 gen_kw={"kinds": ["wfc", "wfc", "step", "wait", "child"]},
                 scen_kw={"crash": 0.6, "paging": 0.3},
